@@ -574,12 +574,10 @@ func c17Gen(r *Run) {
 	} else {
 		r.Notes = append(r.Notes, "worker built with -race")
 	}
-	// the lockset table, by name, for the replay file of a broken obligation
-	r.Emit(map[string]interface{}{"op": "lockset"}, map[string]interface{}{"unexplained": []interface{}{}, "stale": 0})
 	n := 24
 	big := false
 	if r.Tier == "thorough" {
-		n = 120
+		n = 60
 		big = true
 	}
 	var sessions []c17Session
@@ -595,6 +593,10 @@ func c17Gen(r *Run) {
 		}
 		c17RunAndEmit(r, worker, sessions[i:j], fmt.Sprintf("b%d", i/batch))
 	}
+	// last, so that a racing or crashing session (a concrete failing input) is reported first:
+	// the lockset table by name, for the replay file of a broken obligation
+	r.Emit(map[string]interface{}{"op": "reset"}, map[string]interface{}{"r": "ok"})
+	r.Emit(map[string]interface{}{"op": "lockset"}, map[string]interface{}{"unexplained": []interface{}{}, "stale": 0})
 	r.Rule = "distinct (kind, client operation lists) of sessions that ran to completion"
 	r.AddSample(sessions[0])
 	r.AddSample(sessions[1])
